@@ -326,6 +326,97 @@ theorem multilinear_exact_3d (x y z : List α) (f : List (List (List α))) (hx :
   rw [idx3_ok hr hi' hj' hk'] at this
   exact Res.ok.inj this
 
+/-- N-D, by induction on the dimension: data sampled from any function `M` of the coordinates that is
+affine in each coordinate separately (the multilinear polynomials) is reproduced exactly, in any number of
+dimensions (`coords m.grid ix` are the grid coordinates of the index list `ix`) -/
+theorem multilinear_exact_nd (m : ND α) (M : List α → α) (hM : MultiAffine M)
+    (hgrids : List.Forall₂ (fun g s => (strictlyIncreasing g = true ∧ 2 ≤ g.length) ∧ g.length = s) m.grid m.shape)
+    (hget : ∀ ix, List.Forall₂ (· < ·) ix m.shape → m.get ix = .ok (M (coords m.grid ix)))
+    (pt : List α) (hp : List.Forall₂ InAxis m.grid pt) :
+    Interpolator.interpolate (.dn m) pt .linear = .ok (M pt) := by
+  have V : ValidND m (fun ix => M (coords m.grid ix)) := ⟨hgrids, hget⟩
+  obtain ⟨h1, h2, h3, h4⟩ := quads_spec m.grid m.shape pt hgrids hp
+  rw [interpolate_dn_in m _ pt V hp, linearN_ok m _ pt V hp, h1]
+  have := ndValRev_multiaffine M hM (quads m.grid pt).reverse
+    (fun q hq => h4 q (List.mem_reverse.mp hq)) [] []
+  simp only [List.map_reverse, List.reverse_reverse, List.append_nil, h2, h3, coords] at this
+  rw [this]
+
+/-- the multi-affine functions include every multilinear polynomial, e.g. in two dimensions -/
+theorem multiAffine_bilinear (c0 c1 c2 c3 : α) :
+    MultiAffine (fun (v : List α) => c0 + c1 * v.getD 0 0 + c2 * v.getD 1 0 + c3 * v.getD 0 0 * v.getD 1 0) := by
+  intro pre post a b t
+  match pre with
+  | [] => simp; ring
+  | [x] => simp; ring
+  | x :: y :: r => simp; ring
+
+/-! ### the N-D interpolator agrees with the 1-D / 2-D / 3-D ones on the same data
+
+`nd1 / nd2 / nd3` are the N-D interpolators over the same grid and the same values stored row-major (what
+`ArrayD::from_shape_vec` holds); agreement is for every point, inside (same value) and outside (both reject). -/
+
+theorem nd_agrees_1d (x f : List α) (hs : strictlyIncreasing x = true) (hlen : 2 ≤ x.length)
+    (hf : x.length = f.length) (p : α) :
+    Interpolator.interpolate (.dn (nd1 x f)) [p] .linear = Interpolator.interpolate (.d1 x f) [p] .linear := by
+  have V := nd1_valid x f ⟨hs, hlen⟩ hf
+  have hx : x ≠ [] := by intro h; rw [h] at hlen; simp at hlen
+  by_cases h : InAxis x p
+  · have hp : List.Forall₂ InAxis (nd1 x f).grid [p] := List.Forall₂.cons h List.Forall₂.nil
+    obtain ⟨l, d, hc, _, hl⟩ := linear1_ok x f p ⟨hs, hlen⟩ hf h
+    rw [interpolate_dn_in _ _ _ V hp, linearN_ok _ _ _ V hp, interpolate_d1_in x f p h, hl]
+    simp [nd1, triples, selOf_eq hc, ndValRev, G1]
+  · rw [interpolate_d1_out x f p _ hx h, interpolate_dn_out _ _ _ _ V rfl]
+    intro hp
+    cases hp with
+    | cons a _ => exact h a
+
+theorem nd_agrees_2d (x y : List α) (f : List (List α)) (hv : validate2 x y f = .ok ())
+    (hlx : 2 ≤ x.length) (hly : 2 ≤ y.length) (p0 p1 : α) :
+    Interpolator.interpolate (.dn (nd2 x y f)) [p0, p1] .linear =
+      Interpolator.interpolate (.d2 x y f) [p0, p1] .linear := by
+  obtain ⟨hxne, hyne, sx, sy, hr⟩ := (validate2_ok_iff x y f).mp hv
+  have V := nd2_valid x y f ⟨sx, hlx⟩ ⟨sy, hly⟩ hr
+  by_cases h : InAxis x p0 ∧ InAxis y p1
+  · have hp : List.Forall₂ InAxis (nd2 x y f).grid [p0, p1] :=
+      List.Forall₂.cons h.1 (List.Forall₂.cons h.2 List.Forall₂.nil)
+    obtain ⟨lx, dx, ly, dy, hcx, hcy, _, _, hl⟩ := linear2_ok x y f p0 p1 ⟨sx, hlx⟩ ⟨sy, hly⟩ hr h.1 h.2
+    rw [interpolate_dn_in _ _ _ V hp, linearN_ok _ _ _ V hp, interpolate_d2_in x y f p0 p1 h.1 h.2, hl]
+    simp [nd2, triples, selOf_eq hcx, selOf_eq hcy, ndValRev, G2, bil]
+  · rw [interpolate_d2_out x y f p0 p1 _ hxne hyne h, interpolate_dn_out _ _ _ _ V rfl]
+    intro hp
+    cases hp with
+    | cons a rest =>
+      cases rest with
+      | cons b _ => exact h ⟨a, b⟩
+
+theorem nd_agrees_3d (x y z : List α) (f : List (List (List α))) (hx : strictlyIncreasing x = true)
+    (hy : strictlyIncreasing y = true) (hz : strictlyIncreasing z = true)
+    (hr : Rect3 f x.length y.length z.length)
+    (hlx : 2 ≤ x.length) (hly : 2 ≤ y.length) (hlz : 2 ≤ z.length) (p0 p1 p2 : α) :
+    Interpolator.interpolate (.dn (nd3 x y z f)) [p0, p1, p2] .linear =
+      Interpolator.interpolate (.d3 x y z f) [p0, p1, p2] .linear := by
+  have V := nd3_valid x y z f ⟨hx, hlx⟩ ⟨hy, hly⟩ ⟨hz, hlz⟩ hr
+  have hxne : x ≠ [] := by intro h; rw [h] at hlx; simp at hlx
+  have hyne : y ≠ [] := by intro h; rw [h] at hly; simp at hly
+  have hzne : z ≠ [] := by intro h; rw [h] at hlz; simp at hlz
+  by_cases h : InAxis x p0 ∧ InAxis y p1 ∧ InAxis z p2
+  · have hp : List.Forall₂ InAxis (nd3 x y z f).grid [p0, p1, p2] :=
+      List.Forall₂.cons h.1 (List.Forall₂.cons h.2.1 (List.Forall₂.cons h.2.2 List.Forall₂.nil))
+    obtain ⟨lx, dx, ly, dy, lz, dz, hcx, hcy, hcz, _, _, _, hl⟩ :=
+      linear3_ok x y z f p0 p1 p2 ⟨hx, hlx⟩ ⟨hy, hly⟩ ⟨hz, hlz⟩ hr h.1 h.2.1 h.2.2
+    rw [interpolate_dn_in _ _ _ V hp, linearN_ok _ _ _ V hp,
+      interpolate_d3_in x y z f p0 p1 p2 h.1 h.2.1 h.2.2, hl]
+    simp [nd3, triples, selOf_eq hcx, selOf_eq hcy, selOf_eq hcz, ndValRev, G3, tril, bil]
+  · rw [interpolate_d3_out x y z f p0 p1 p2 _ hxne hyne hzne h, interpolate_dn_out _ _ _ _ V rfl]
+    intro hp
+    cases hp with
+    | cons a rest =>
+      cases rest with
+      | cons b rest2 =>
+        cases rest2 with
+        | cons c _ => exact h ⟨a, b, c⟩
+
 /-! ### the generic interpolators reject points outside their grid -/
 
 theorem rejects_outside_1d (x f : List α) (hx : x ≠ []) (p : α) (s : Strategy) (h : ¬ InAxis x p) :
@@ -341,6 +432,14 @@ theorem rejects_outside_3d (x y z : List α) (f : List (List (List α))) (hx : x
     (hz : z ≠ []) (p0 p1 p2 : α) (s : Strategy) (h : ¬ (InAxis x p0 ∧ InAxis y p1 ∧ InAxis z p2)) :
     Interpolator.interpolate (.d3 x y z f) [p0, p1, p2] s = .err .outside :=
   interpolate_d3_out x y z f p0 p1 p2 s hx hy hz h
+
+/-- N-D: a point of the right dimensionality with some coordinate outside its axis is rejected -/
+theorem rejects_outside_nd (m : ND α) (G : List Nat → α)
+    (hgrids : List.Forall₂ (fun g s => (strictlyIncreasing g = true ∧ 2 ≤ g.length) ∧ g.length = s) m.grid m.shape)
+    (hget : ∀ ix, List.Forall₂ (· < ·) ix m.shape → m.get ix = .ok (G ix))
+    (pt : List α) (s : Strategy) (hl : pt.length = m.grid.length) (h : ¬ List.Forall₂ InAxis m.grid pt) :
+    Interpolator.interpolate (.dn m) pt s = .err .outside :=
+  interpolate_dn_out m G pt s ⟨hgrids, hget⟩ hl h
 
 end
 
@@ -386,6 +485,13 @@ example : findNearestIndex [(0 : ℚ), 1, 2] 2 = .ok 1 ∧ findNearestIndex [(0 
 example : Interpolator.interpolate (.d2 [(0 : ℚ), 1, 3] [0, 2] [[0, 2], [1, 3], [3, 5]]) [2, 1] .linear
     = .ok 3 := by decide +kernel
 example : Interpolator.interpolate (.d1 [(0 : ℚ), 1, 3] [1, 3, 7]) [2] .linear = .ok 5 := by decide +kernel
+example : Interpolator.interpolate (.dn (nd2 [(0 : ℚ), 1, 3] [0, 2] [[0, 2], [1, 3], [3, 5]])) [2, 1] .linear
+    = .ok 3 := by decide +kernel
+example : Interpolator.interpolate (.dn (nd2 [(0 : ℚ), 1, 3] [0, 2] [[0, 2], [1, 3], [3, 5]])) [1, 2] .linear
+    = .ok 3 := by decide +kernel
+example : Interpolator.interpolate (.dn (nd2 [(0 : ℚ), 1, 3] [0, 2] [[0, 2], [1, 3], [3, 5]])) [4, 1] .linear
+    = .err .outside := by decide +kernel
+example : validateN (nd2 [(0 : ℚ), 1, 3] [0, 2] [[0, 2], [1, 3], [3, 5]]) = .ok () := by decide +kernel
 example : linspace (0 : ℚ) 1 5 = .ok [0, 1 / 4, 1 / 2, 3 / 4, 1] := by decide +kernel
 
 end C14
